@@ -308,6 +308,14 @@ var rErrRefs = &Rule{
 					if f := sx.Callee(x); f != nil && f.Name() == "WithSecondaryError" && p.InModule(f) {
 						loopCalls = append(loopCalls, x)
 					}
+					// the attaching loop may live in a helper that receives the collected slice
+					if f := sx.Callee(x); f != nil && p.InModule(f) && f != fn {
+						for i, a := range x.Call.Args {
+							if sl, ok := types.Unalias(a.Type()).Underlying().(*types.Slice); ok && sx.IsErrorType(sl.Elem()) && attachesAllOf(p, f, i) {
+								loopCalls = append(loopCalls, x)
+							}
+						}
+					}
 					// the collection may live in a helper that receives the variadic slice and returns the errors in it
 					if f := sx.Callee(x); f != nil && p.InModule(f) && fn.Signature.Variadic() {
 						for i, a := range x.Call.Args {
@@ -369,6 +377,49 @@ func elemOfVariadic(v ssa.Value, fn *ssa.Function) (ssa.Value, bool) {
 		return pp, true
 	}
 	return nil, false
+}
+
+// attachesAllOf: fn attaches every element of its []error parameter pi as a secondary error: a
+// WithSecondaryError call on an element of the parameter, in a loop whose header dominates every return.
+func attachesAllOf(p *load.Program, fn *ssa.Function, pi int) bool {
+	if fn.Blocks == nil || pi >= len(fn.Params) {
+		return false
+	}
+	ok := false
+	sx.EachInstr(fn, func(in ssa.Instruction) {
+		call, isCall := in.(*ssa.Call)
+		if !isCall || len(call.Call.Args) != 2 {
+			return
+		}
+		if f := sx.Callee(call); f == nil || f.Name() != "WithSecondaryError" || !p.InModule(f) {
+			return
+		}
+		ld, isLd := call.Call.Args[1].(*ssa.UnOp)
+		if !isLd {
+			return
+		}
+		ia, isIA := ld.X.(*ssa.IndexAddr)
+		if !isIA || ia.X != ssa.Value(fn.Params[pi]) {
+			return
+		}
+		hdr := call.Block()
+		for b := call.Block(); b != nil; b = b.Idom() {
+			if strings.Contains(b.Comment, "rangeindex.loop") || strings.Contains(b.Comment, "for.loop") {
+				hdr = b
+				break
+			}
+		}
+		all := true
+		for _, r := range sx.Returns(fn) {
+			if !hdr.Dominates(r.Block()) {
+				all = false
+			}
+		}
+		if all {
+			ok = true
+		}
+	})
+	return ok
 }
 
 // collectsErrorsOf: fn returns a []error and asserts elements of its slice parameter pi to error (comma-ok).
